@@ -155,6 +155,20 @@ func (e *Eng) evalCallInner(st *State, call *ast.CallExpr) []*Val {
 	var recv *Val
 	if recvExpr != nil {
 		recv = e.eval(st, recvExpr)
+		if sig.Recv() != nil {
+			if _, isPtr := sig.Recv().Type().Underlying().(*types.Pointer); isPtr && recv.Sort != "Int" {
+				// method with pointer receiver called on an addressable value: &x is implicit and never nil
+				recv = e.freshNonNil("autoaddr", sig.Recv().Type())
+				e.gap("implicit address-of for pointer-receiver method call: object identity abstracted (%s)", e.src(recvExpr))
+				if id, ok := ast.Unparen(recvExpr).(*ast.Ident); ok {
+					defer func(obj types.Object) {
+						if _, has := st.vars[obj]; has && !st.dead {
+							st.vars[obj] = e.freshVal("autoaddr."+obj.Name(), obj.Type())
+						}
+					}(e.info.ObjectOf(id))
+				}
+			}
+		}
 	}
 	for i, a := range call.Args {
 		v := e.eval(st, a)
